@@ -210,6 +210,13 @@ structure HdlrView where
   hasName : Bool
   name : ObjView → String
 
+/-- which per-kind closures the handler has -/
+structure HdlrCbView where
+  hasAdd : Bool
+  hasUpd : Bool
+  hasDel : Bool
+deriving DecidableEq, Repr
+
 /-- `q.AddRateLimited(rparam{fullsync})` on the log of enqueued items -/
 def enqueue (fx : List Bool) (full : Bool) : List Bool := fx ++ [full]
 
@@ -228,6 +235,12 @@ abbrev Fx := List String
 def eff (name : String) (fx : Fx) : Fx := fx ++ [name]
 /-- a step with a Bool argument worth recording -/
 def effB (name : String) (fx : Fx) (b : Bool) : Fx := fx ++ [name ++ ":" ++ toString b]
+/-- a step with a string argument worth recording -/
+def effS (name : String) (fx : Fx) (s : String) : Fx := fx ++ [name ++ ":" ++ s]
+/-- a step with a Bool and a string argument -/
+def effBS (name : String) (fx : Fx) (b : Bool) (s : String) : Fx := fx ++ [name ++ ":" ++ toString b ++ ":" ++ s]
+/-- a step whose result is not looked at -/
+def callU (name : String) (fx : Fx) : Unit × Fx := ((), fx ++ [name])
 /-- a step that returns an `error` -/
 def callE (env : Env) (name : String) (fx : Fx) : Option String × Fx :=
   (if env.fail name then some name else none, fx ++ [name])
@@ -238,6 +251,24 @@ def readB (env : Env) (name : String) : Bool := env.val name
 def readN (env : Env) (name : String) : Int := env.num name
 /-- `fmt.Errorf(format, err)`: some error -/
 def errorf (format : String) (e : Option String) : Option String := some (format ++ (e.getD ""))
+
+/-- `converters.converters` and the batch as `Sync` sees them -/
+structure ConvView where
+  changedNil : Bool
+  batchFull : Bool
+  hasGatewayV1 : Bool
+  hasGatewayB1 : Bool
+  hasGatewayA2 : Bool
+  tcpCur : Bool
+  tcpNew : Bool
+deriving DecidableEq, Repr
+
+/-- `haproxy.instance` as `AcmeUpdate` sees it -/
+structure AcmeInstView where
+  configNil : Bool
+  queueNil : Bool
+  isLeader : Bool
+deriving DecidableEq, Repr
 
 /-- `haproxy.instance` as `HAProxyUpdate` / `Reload` see it -/
 structure InstView where
